@@ -77,6 +77,20 @@ static struct ring *ring_get(size_t S, uint32_t flags)
 static void ring_restore(struct ring *r, const char *h, const char *d) { memcpy(r->hdr, h, r->hdr_len); memcpy(r->data, d, r->data_len); }
 static void ring_save(struct ring *r, char *h, char *d) { memcpy(h, r->hdr, r->hdr_len); memcpy(d, r->data, r->data_len); }
 static int ring_same(struct ring *r, const char *h, const char *d) { return !memcmp(r->hdr, h, r->hdr_len) && !memcmp(r->data, d, r->data_len); }
+/* exact fingerprint of the ring image relative to the positioned snapshot: only 64-byte blocks that differ are hashed */
+static uint64_t ring_delta_hash(struct ring *r)
+{
+	uint64_t id[3] = { (uint64_t)r->pos_key, r->flags, r->S };
+	uint64_t k = vp_hash(id, sizeof id, 99);
+	size_t off;
+	for (off = 0; off < r->hdr_len; off += 64) {
+		size_t n = r->hdr_len - off < 64 ? r->hdr_len - off : 64;
+		if (memcmp(r->hdr + off, r->pos_hdr + off, n)) { k = vp_hash(r->hdr + off, n, k ^ off); }
+	}
+	for (off = 0; off < r->data_len; off += 64)
+		if (memcmp(r->data + off, r->pos_data + off, 64)) { k = vp_hash(r->data + off, 64, k ^ (off + 0x100000)); }
+	return k;
+}
 static uint64_t ring_hash(struct ring *r) { return vp_hash(r->data, r->data_len, vp_hash(r->hdr, 64, 1)); }
 
 /* ---- payloads: byte j of chunk with seed s ---- */
